@@ -6,12 +6,14 @@
 # (use it as VERIF_REPO to run the checks against the change; remove it with: git -C /repo worktree remove --force /tmp/seedc/<name>).
 set -u
 SRC=$1; NAME=$2; WT=/tmp/seedc/$NAME
-LIBS="-lsqlite3 -lm $(pkg-config --libs icu-uc icu-io icu-i18n)"
+# a demo may need the linker's --wrap for allocation-failure injection: every -Wl,--wrap=… named in meta.json is added
+WRAPS=$(grep -o -e '-Wl,--wrap=[a-z_]*' $SRC/meta.json $SRC/demo.c 2>/dev/null | sed 's/^[^:]*://' | sort -u | tr '\n' ' ')
+LIBS="-lsqlite3 -lm $(pkg-config --libs icu-uc icu-io icu-i18n) $WRAPS"
 rm -rf $WT; git -C /repo worktree prune; mkdir -p /tmp/seedc
 git -C /repo worktree add -q --detach $WT HEAD || exit 2
 mkar() { rm -f $WT/src/.libs/libcif.a; ar rcs $WT/src/.libs/libcif.a $WT/src/.libs/*.o; }   # the checkout builds the shared library only
 cd $WT && ./configure -q >/dev/null 2>&1 && make -j8 >/dev/null 2>&1 && mkar || { echo "$NAME: clean build failed"; exit 2; }
-sed "s#/tmp/seed/[A-Za-z0-9_]*#$WT#g" $SRC/demo.c > $WT/demo.c
+sed "s#/tmp/seed2\?/[A-Za-z0-9_]*#$WT#g" $SRC/demo.c > $WT/demo.c
 gcc -g -w -I$WT/src -I$WT demo.c $WT/src/.libs/libcif.a $LIBS -o demo_clean 2>demo_build.log || { echo "$NAME: demo does not compile"; cat demo_build.log | head; exit 2; }
 timeout 120 ./demo_clean > demo_clean.out 2>&1; RC_CLEAN=$?
 git apply $SRC/patch.diff || { echo "$NAME: patch does not apply to HEAD"; exit 2; }
